@@ -177,7 +177,10 @@ type tableXML struct {
 	Name      string        `xml:"name,attr"`
 	StyleName string        `xml:"style-name,attr"`
 	Columns   []tableColXML `xml:"table-column"`
-	Rows      []tableRowXML `xml:"table-row"`
+	// Rows repeated at the top of every page are wrapped in
+	// <table:table-header-rows>; they precede the other rows.
+	HeaderRows []tableRowXML `xml:"table-header-rows>table-row"`
+	Rows       []tableRowXML `xml:"table-row"`
 }
 
 // tableColXML represents a table column definition.
